@@ -33,6 +33,11 @@ class Policy:
     # per-segment extra gap (makes segments of one write arrive clearly apart)
     seg_gap_min: float = 0.0
     seg_gap_max: float = 0.0
+    # latency spikes: with probability spike_p a write is delayed by an extra uniform(spike_min, spike_max) seconds (FIFO is kept,
+    # so what follows waits behind it); drawn from a stream of its own so that spike_p = 0 changes nothing
+    spike_p: float = 0.0
+    spike_min: float = 0.0
+    spike_max: float = 0.0
 
     def make_rng(self) -> random.Random:
         return random.Random(self.seed)
@@ -199,6 +204,12 @@ class Pipe:
         if len(parts) > 1:
             net.count("segmented_writes")
         lat = self.rng.uniform(self.policy.lat_min, self.policy.lat_max)
+        if self.policy.spike_p > 0:
+            if not hasattr(self, "_spike_rng"):
+                self._spike_rng = random.Random(self.policy.seed * 2654435761 % (2**32) + 17)
+            if self._spike_rng.random() < self.policy.spike_p:
+                lat += self._spike_rng.uniform(self.policy.spike_min, self.policy.spike_max)
+                net.count("latency_spikes")
         for i, part in enumerate(parts):
             if (
                 i == 0
